@@ -262,9 +262,11 @@ def run(ctx):
 
     # ---- code -> spec: seeded random lists and strings, larger than TLC enumerates
     ws = WS_ALL
-    alpha = "ab \t'\"\\-=\u00e9\n\x0b\xa0"
-    words = ["help", "a", "aa", "-h", "--", "x", "--opt", "-f", "-", "--help", "v", "--opt=v"]
+    # (punctuation that is special to shells but ordinary here: no character outside whitespace, quotes and backslash has a meaning)
+    alpha = "ab \t'\"\\-=\u00e9\n\x0b\xa0" + "ab \t'\"\\-" + "#$;|&*~!,:@%^()[]{}<>?+./`"
+    words = ["help", "a", "aa", "-h", "--", "x", "--opt", "-f", "-", "--help", "v", "--opt=v", "#x", "#", "$v", "a;b", "*", "~", "&&", "|", ">f", "`x`", "!1"]
     traces, cases = [], []
+    deep_traces, deep_cases = [], []
     nlists = 1500 if quick else 20000
     for _ in range(nlists):
         n = ctx.rng.randint(0, 4)
@@ -301,11 +303,21 @@ def run(ctx):
         cases.append({"kind": "string", "s": s})
         ctx.count()
         ctx.nontriv(s)
+    # deep nesting: quotes alternating k levels deep (the scanner follows them on its stack; the input alone bounds the depth)
+    deep = []
+    for k in ((200, 520, 1100) if quick else (200, 520, 800, 1100, 1600, 2500)):
+        deep += ["'\"" * k, "x \"'" * k + "y", "a'b\"" * (k // 2) + " z"]
+    for s in deep:
+        deep_traces.append([observe(s)])
+        deep_cases.append({"kind": "string", "s": s})
+        ctx.count()
+        ctx.nontriv(s[:40] + str(len(s)))
     for ev, wi in mism + sample_ev:
         traces.append([ev])
         cases.append({"kind": "tlc-behaviour", "s": text(ev["s"])})
     ctx.extra["tlc_behaviours_not_reproduced"] = len(mism)
     ctx.validate(SPEC, "TokenizerTrace", "TokenizerTrace.cfg", traces, cases=cases, name="recorded-calls")
+    ctx.validate(SPEC, "TokenizerTrace", "TokenizerTrace.cfg", deep_traces, cases=deep_cases, name="deep-nesting", chunk=3, timeout=1500)
     ctx.sample(cases[0])
 
 
